@@ -5,7 +5,7 @@ from __future__ import annotations
 import ast
 from fractions import Fraction
 
-from sa.core import AnalysisError, Report, loc, norm_src
+from sa.core import AnalysisError, Report, loc, norm_src, canon_locals
 from sa.paths import enumerate_paths, dotted, calls_in, call_name
 from sa.defuse import last_def
 
@@ -542,6 +542,25 @@ def run(repo, tier):
             if cname not in params:
                 raise AnalysisError(f"{rel}::{fname}: coefficient parameter `{cname}` vanished (has {params})")
             sig = []
+            # interval bounds mention locals (the split point): compare siblings on rename-invariant names
+            locals_ = set(canon_locals(f))
+            import re as _re2
+
+            def _canon_sig(items, locals_=locals_):
+                """the intervals with locals numbered by first occurrence (after ordering by their name-free shape)"""
+                ident = r"[A-Za-z_][A-Za-z_0-9]*"
+                shape = lambda t: _re2.sub(ident, lambda m_: "@" if m_.group(0) in locals_ else m_.group(0), t)
+                items = sorted(items, key=lambda t: (shape(t), t))
+                num = {}
+
+                def ren(m_):
+                    w = m_.group(0)
+                    if w not in locals_:
+                        return w
+                    return num.setdefault(w, f"@{len(num) + 1}")
+
+                return tuple(sorted(_re2.sub(ident, ren, t) for t in items))
+
             for p in enumerate_paths(f, unroll=(1,)):
                 if p.exit != "return":
                     continue
@@ -550,7 +569,7 @@ def run(repo, tier):
                 conds = [("" if e.pol else "not ") + norm_src(e.node) for e in p.events if e.kind == "test"]
                 key = f"{rel}::{fname} path [{' & '.join(conds) or 'true'}]"
                 r.ob("R16.1", key, ok, why, loc(rel, p.exit_node), sample=dict(rule="R16.1", key=key, consumed=why[:300]))
-                sig.append((tuple(c for c in conds if "500" not in c and "scheme is None" not in c and "_N is None" not in c), tuple(sorted(f"{lo}..{hi}" for lo, hi, _ in ivs))))
+                sig.append((tuple(c for c in conds if "500" not in c and "scheme is None" not in c and "_N is None" not in c), _canon_sig([f"{lo}..{hi}" for lo, hi, _ in ivs])))
             signatures[(rel, fname)] = set(sig)
 
     # ---- R16.2 sibling agreement
